@@ -15,7 +15,11 @@
  *   lkcfg                                      runs the T1 config probes named on the command line
  *   lkapi <file> <func> / lkcb <file> <func> <callee> <k>   facts of the static scan of the tree (sites file)
  *
- * Tokens: L U (API entry/exit)  K+ K- (coap_lock_callback)  R+ R- (…_ret)  X+ X- (…_release)  Y+ Y- (…_ret_release).
+ * Tokens: L U (API entry/exit)  K+ K- (coap_lock_callback)  R+ R- (…_ret)  X+ X- (…_release)  Y+ Y- (…_ret_release)
+ *         W+ W- (release window of an internal function: coap_lock_unlock(c) … coap_lock_lock(c, failed)).
+ *   lkwin <file> <func>                        lock-balance facts of the static scan (sites file)
+ *   lkctxfail <mode>                           coap_new_context() made to fail (mode 0: the listen address cannot be
+ *                                              bound): `ret=null held=<the mutex is still taken afterwards>`
  * argv: <binary for the other rc variant | -> <sites file | -> [<name>=<probe binary>]...
  * This binary serves the lock variant it was compiled with (`rc` = COAP_THREAD_RECURSIVE_CHECK of its libcoap build) and
  * forwards lines for the other variant to the co-process.
@@ -88,9 +92,9 @@ static void print_obs(const char *prefix) {
 }
 
 /* ------------------------------------------------------------------ token programs */
-enum { T_L, T_U, T_KI, T_KO, T_RI, T_RO, T_XI, T_XO, T_YI, T_YO, T_BAD };
+enum { T_L, T_U, T_KI, T_KO, T_RI, T_RO, T_XI, T_XO, T_YI, T_YO, T_WI, T_WO, T_BAD };
 static int tok_of(const char *s) {
-  static const char *n[] = {"L", "U", "K+", "K-", "R+", "R-", "X+", "X-", "Y+", "Y-"};
+  static const char *n[] = {"L", "U", "K+", "K-", "R+", "R-", "X+", "X-", "Y+", "Y-", "W+", "W-"};
   for (int i = 0; i < T_BAD; i++) if (!strcmp(s, n[i])) return i;
   return T_BAD;
 }
@@ -98,15 +102,15 @@ static int tok_of(const char *s) {
 #define MAXTOK 4096
 /* the same grammar as `wn` of the model */
 static int well_nested(const int *t, int n) {
-  static unsigned char st[MAXTOK + 1];   /* 0 = api, 1..4 = callback kind */
+  static unsigned char st[MAXTOK + 1];   /* 0 = api, 1..4 = callback kind, 5 = release window */
   int sp = 0;
   for (int i = 0; i < n; i++) {
     int top = sp ? st[sp - 1] : -1;
     switch (t[i]) {
     case T_L: if (top == 0) return 0; st[sp++] = 0; break;
     case T_U: if (top != 0) return 0; sp--; break;
-    case T_KI: case T_RI: case T_XI: case T_YI: if (top != 0) return 0; st[sp++] = (unsigned char)(1 + (t[i] - T_KI) / 2); break;
-    case T_KO: case T_RO: case T_XO: case T_YO: if (top != 1 + (t[i] - T_KO) / 2) return 0; sp--; break;
+    case T_KI: case T_RI: case T_XI: case T_YI: case T_WI: if (top != 0) return 0; st[sp++] = (unsigned char)(1 + (t[i] - T_KI) / 2); break;
+    case T_KO: case T_RO: case T_XO: case T_YO: case T_WO: if (top != 1 + (t[i] - T_KO) / 2) return 0; sp--; break;
     default: return 0;
     }
   }
@@ -175,7 +179,7 @@ static void run_lib(prog_t *p) {
   while (p->pos < p->n) {
     int t = p->tok[p->pos];
     volatile int r = 0;
-    if (t != T_KI && t != T_RI && t != T_XI && t != T_YI) return;
+    if (t != T_KI && t != T_RI && t != T_XI && t != T_YI && t != T_WI) return;
     turn_begin(p);
     p->pos++;
     switch (t) {
@@ -183,6 +187,11 @@ static void run_lib(prog_t *p) {
     case T_RI: coap_lock_callback_ret(r, ctx, cb_body(p)); break;
     case T_XI: coap_lock_callback_release(ctx, cb_body(p), h_fault = 1); break;
     case T_YI: coap_lock_callback_ret_release(r, ctx, cb_body(p), h_fault = 1); break;
+    case T_WI:              /* a release window of library code, as around epoll_wait() in coap_io_process_with_fds_lkd() */
+      coap_lock_unlock(ctx);
+      r = cb_body(p);
+      coap_lock_lock(ctx, h_fault = 1);
+      break;
     default: break;
     }
     (void)r;
@@ -364,15 +373,20 @@ static void do_cfg(void) {
 
 static const char *sites_path;
 static void do_site(const char *kind, char **w, int n) {
-  /* sites file lines:  api <file> <func> <locks> <lkd> <unlocks>  |  cb <file> <func> <callee> <k> <wrapped> */
+  /* sites file lines:  api <file> <func> <locks> <lkd> <unlocks>  |  cb <file> <func> <callee> <k> <wrapped>
+   *                    win <file> <func> <held> <windows> <exits> <loops> <fail> <order> <quiet> */
   char line[1024];
   FILE *f = sites_path ? fopen(sites_path, "r") : NULL;
   if (!f) { printf("no-sites"); return; }
   while (fgets(line, sizeof(line), f)) {
-    char *v[8]; int m = h_words(line, v, 8);
+    char *v[12]; int m = h_words(line, v, 12);
     if (m < 1 || strcmp(v[0], kind)) continue;
     if (!strcmp(kind, "api") && m == 6 && n == 2 && !strcmp(v[1], w[0]) && !strcmp(v[2], w[1])) {
       printf("locks=%s lkd=%s unlocks=%s", v[3], v[4], v[5]); fclose(f); return;
+    }
+    if (!strcmp(kind, "win") && m == 10 && n == 2 && !strcmp(v[1], w[0]) && !strcmp(v[2], w[1])) {
+      printf("held=%s windows=%s exits=%s loops=%s fail=%s order=%s quiet=%s", v[3], v[4], v[5], v[6], v[7], v[8], v[9]);
+      fclose(f); return;
     }
     if (!strcmp(kind, "cb") && m == 6 && n == 4 && !strcmp(v[1], w[0]) && !strcmp(v[2], w[1]) && !strcmp(v[3], w[2]) && !strcmp(v[4], w[3])) {
       printf("wrapped=%s", v[5]); fclose(f); return;
@@ -380,6 +394,27 @@ static void do_site(const char *kind, char **w, int n) {
   }
   fclose(f);
   printf("no-such-site");
+}
+
+/* ------------------------------------------------------------------ lkctxfail: a failing coap_new_context() */
+static void do_ctxfail(int mode) {
+  coap_address_t a;
+  coap_context_t *c;
+  coap_address_init(&a);
+  /* mode 0: an address family no socket can be created for -> coap_new_endpoint_lkd() fails -> `goto onerror` */
+  a.addr.sa.sa_family = mode == 0 ? AF_UNSPEC : AF_INET;
+  if (mode != 0) { printf("bad-op"); return; }
+  c = coap_new_context(&a);
+  first_out = 1;
+  if (c) { printf("ret=ctx"); coap_free_context(c); return; }
+#if LOCKING
+  sem_post(&obs_req);
+  sem_wait(&obs_resp);
+  printf("ret=null held=%d", obs_held);
+#else
+  printf("ret=null held=0");
+#endif
+  reset_lock();
 }
 
 /* ------------------------------------------------------------------ lksmoke (support: TSan multi-thread run) */
@@ -459,6 +494,8 @@ static void step(char *line) {
   if (n == 1 && !strcmp(w[0], "lkcfg")) { do_cfg(); return; }
   if (n == 3 && !strcmp(w[0], "lkapi")) { do_site("api", w + 1, 2); return; }
   if (n == 5 && !strcmp(w[0], "lkcb")) { do_site("cb", w + 1, 4); return; }
+  if (n == 3 && !strcmp(w[0], "lkwin")) { do_site("win", w + 1, 2); return; }
+  if (n == 2 && !strcmp(w[0], "lkctxfail")) { alarm(20); do_ctxfail(atoi(w[1])); alarm(0); return; }
   printf("bad-op");
 }
 
